@@ -698,6 +698,37 @@ fn c06(cfg: &SCfg, e: &Exec, f: &SFacts, vs: &mut Vec<Violation>, nt: &mut bool)
             );
         }
     }
+    // "transmits nothing for it afterwards": no response bearing a request's token is handed to
+    // the transport at t >= D+1ms, whatever the order of work inside that poll
+    for i in f.inst.values() {
+        for r in &i.resp {
+            let t = f.time_at(*r);
+            if t >= i.deadline_ns + ms {
+                // the known limiter finding delays expiry processing; keep its signature apart
+                let blocked_before = f.polls.iter().any(|(ps, pe, pt)| {
+                    *pt >= i.deadline_ns + ms
+                        && *ps > i.handed
+                        && *pe < *r
+                        && cfg.limit.is_some()
+                        && !e.recs[*ps..*pe].iter().any(|x| matches!(x, Rec::T { side: 1, op: Op::Next, .. }))
+                        && e.recs[*ps..*pe].iter().any(|x| matches!(x, Rec::T { side: 1, op: Op::Ready, res: Res::Pending, .. }))
+                });
+                let sfx = if blocked_before { "/limit-reached+sink-not-ready:inner-channel-not-polled" } else { "" };
+                *nt = true;
+                v(
+                    vs,
+                    &format!("C06-response-after-deadline{sfx}"),
+                    cfg,
+                    format!(
+                        "the response for request id {} (deadline {}ms) was transmitted at t={}ms",
+                        i.id,
+                        i.deadline_ns / ms,
+                        t / ms
+                    ),
+                );
+            }
+        }
+    }
     // at every settled checkpoint past D+1ms the handler is gone
     let mut cur: Option<(usize, i128)> = None;
     for (idx, r) in e.recs.iter().enumerate() {
